@@ -205,6 +205,9 @@ fn read_and_compare(a: &Arch, bytes: &[u8], rot: usize, st: &mut Stats, expect_a
                 let mut buf = vec![0u8; bs];
                 let mut pos = 0usize;
                 let limit = if pass == 0 { usize::MAX } else { orig.len() / 2 + 1 };
+                // a consumer may call read() again after an error (a retry loop, `read_to_end` of a wrapper): whatever
+                // comes back then is still a file byte at the position reached so far
+                let mut errors = 0;
                 loop {
                     match f.data.read(&mut buf) {
                         Ok(0) => break,
@@ -212,8 +215,8 @@ fn read_and_compare(a: &Arch, bytes: &[u8], rot: usize, st: &mut Stats, expect_a
                             if pos + k > orig.len() || buf[..k] != orig[pos..pos + k] {
                                 let d = (0..k).find(|&i| pos + i >= orig.len() || buf[i] != orig[pos + i]).unwrap_or(0);
                                 return Err(format!(
-                                    "file {} byte {} returned by the reader differs from the original (read of {k} bytes at {pos}, original length {})",
-                                    prog::short_name(n), pos + d, orig.len()
+                                    "file {} byte {} returned by the reader differs from the original (read of {k} bytes at {pos}, original length {}{})",
+                                    prog::short_name(n), pos + d, orig.len(), if errors > 0 { format!(", after {errors} read error(s) on this file") } else { String::new() }
                                 ));
                             }
                             pos += k;
@@ -226,7 +229,11 @@ fn read_and_compare(a: &Arch, bytes: &[u8], rot: usize, st: &mut Stats, expect_a
                                 return Err(format!("unaltered archive: read error {e}"));
                             }
                             any_err = true;
-                            break;
+                            errors += 1;
+                            if errors > 3 {
+                                break;
+                            }
+                            st.label("read() called again after an error");
                         }
                     }
                 }
@@ -310,6 +317,7 @@ fn pin(c: &Case) -> Case {
 
 fn run(ctx: &Ctx) -> Report {
     let mut rep = Report::new(RULE);
+    rep.assume(&prog::budget_note());
     rep.assume("a forged chunk that verifies under AES-GCM has negligible probability; random garbage parsing as a valid footer likewise");
     let gen = || {
         prog::program(ProgParams { layers: &[1, 3], max_files: 5, max_pieces: 4, min_files: 1, align_weight: 5, ..ProgParams::default() }).prop_map(|mut program| {
